@@ -142,37 +142,35 @@ class AFS:
     # ---- resolution ------------------------------------------------------
     def resolve(self, p, follow=True, _depth=0):
         """Absolute normalised path, or None when an intermediate component is
-        missing or not a directory (POSIX lookup; symbolic links to regular files are followed when they are the last
-        component and `follow` is set; there are no links to directories)."""
+        missing or not a directory (POSIX lookup).  Symbolic links are followed in intermediate components always and
+        in the last component when `follow` is set."""
         p = _s(p)
         if p == "":
             return None
+        if _depth > 12:
+            raise OSError(errno.ELOOP, "Too many levels of symbolic links", p)
         full = posixpath.join(self.cwd, p)
         cur = "/"
-        parts = full.split("/")
-        for c in parts:
-            if c in ("", "."):
-                continue
+        parts = [c for c in full.split("/") if c not in ("", ".")]
+        trailing = full.endswith("/") or full.endswith("/.")
+        for i, c in enumerate(parts):
             if cur not in self.dirs:
                 return None
             if c == "..":
                 cur = posixpath.dirname(cur)
-            else:
-                cur = posixpath.join(cur, c)
-        if cur in self.links:
-            if full.endswith("/") or full.endswith("/."):
-                return None
-            if follow:
-                if _depth > 8:
-                    raise OSError(errno.ELOOP, "Too many levels of symbolic links", p)
+                continue
+            cur = posixpath.join(cur, c)
+            last = i == len(parts) - 1
+            if cur in self.links and (not last or follow or trailing):
                 save = self.cwd
                 self.cwd = posixpath.dirname(cur)
                 try:
-                    return self.resolve(self.links[cur], True, _depth + 1)
+                    cur = self.resolve(self.links[cur], True, _depth + 1)
                 finally:
                     self.cwd = save
-            return cur
-        if (full.endswith("/") or full.endswith("/.")) and cur in self.files:
+                if cur is None:
+                    return None
+        if trailing and cur in self.files:
             return None
         return cur
 
@@ -974,7 +972,8 @@ class _PathMod:
         return self._fs.abs(p)
 
     def realpath(self, p, **k):
-        return self._fs.abs(p)
+        r = self._fs.resolve(p)
+        return r if r is not None else self._fs.abs(p)
 
     def relpath(self, p, start=None):
         if start is None:
